@@ -55,7 +55,9 @@ META = {
         "answer and no break leaves it under a condition on the current entry, every positive answer is dominated by `type part == "
         "type` (equality: a prefix / suffix / substring comparison is a violation) and a sub-target test, the union of the positive answers accepts exactly bare type / type.subtype / type.*, the two "
         "parts come from split('.', 1) guarded by `'.' in entry` resp. from (entry, None), or from entry.partition('.') (whose bare "
-        "sentinel is ''); conditional expressions are branches and split / predicate helpers are followed with parameters substituted. "
+        "sentinel is '', and whose separator item is the dot test), or the whole entry is compared with the spelled-out forms type / "
+        "f'{type}.{subtype}' / f'{type}.*'; a disjunctive condition is a case split whose alternatives are judged one by one; "
+        "`next((True for e in L if ...), False)` counts as the scan like any(); conditional expressions are branches and split / predicate helpers are followed with parameters substituted. "
         "R5: the value returned by create_warning (None when suppressed) is only discarded, returned by a wrapper whose call sites "
         "are judged, or put into a node list under a presence test (`[x] if x else []`, `if x: out.append(x)`, `x or []`, or a helper "
         "doing that with its parameter); a branch with other statements, an unguarded list placement (None among the nodes) and "
@@ -1223,6 +1225,8 @@ class _Forms:
         self.split_calls: list[tuple[ast.Call, FunctionInfo]] = []
         self.partition_calls: list[tuple[ast.Call, FunctionInfo]] = []
         self.partition_tails: set[str] = set()
+        self.partition_seps: set[str] = set()
+        self.saw_whole = False  # the entry is (also) compared as a whole with type / type.subtype / type.*
         self._pred_cache: dict[int, tuple] = {}
         local = [n for st in body for n in ast.walk(st)]
         for n in local:
@@ -1332,6 +1336,7 @@ class _Forms:
         self.split_calls += sub.split_calls
         self.partition_calls += sub.partition_calls
         self.partition_tails |= sub.partition_tails
+        self.saw_whole = self.saw_whole or sub.saw_whole
 
     def _bind(self, st: ast.AST, tgt: ast.expr, val: ast.expr, extra: list[tuple[ast.expr, bool]]) -> None:
         if isinstance(val, ast.IfExp):  # a conditional expression is a branch
@@ -1345,6 +1350,7 @@ class _Forms:
             self.heads.setdefault(a, set()).update({"split", "bare"})
             self.tails.setdefault(b, set()).update({"split", ("const", "")})
             self.partition_tails.add(b)
+            self.partition_seps.add(tgt.elts[1].id)  # type: ignore[union-attr]  # '.' if the entry has a dot, else ''
             return
         if isinstance(tgt, (ast.Tuple, ast.List)) and len(tgt.elts) == 2 and all(isinstance(x, ast.Name) for x in tgt.elts):
             a, b = px + tgt.elts[0].id, px + tgt.elts[1].id  # type: ignore[union-attr]
@@ -1393,6 +1399,20 @@ class _Forms:
             (self.heads if val.slice.value == 0 else self.tails).setdefault(name, set()).add("split")
             if val.slice.value == 1:
                 self.split_sites.append((st, self.fi, self.stmt_facts(st, extra)))
+        elif isinstance(val, ast.BoolOp) and isinstance(val.op, ast.Or) and len(val.values) == 2 and isinstance(val.values[0], ast.Name) and (self.prefix + val.values[0].id) in self.partition_tails and isinstance(self.lit(val.values[1]), ast.Constant):
+            # `rest or None`: the text after the dot, or the sentinel when there is none
+            self.tails.setdefault(name, set()).update({"split", ("const", self.lit(val.values[1]).value)})
+        elif isinstance(val, ast.Name) and (self.prefix + val.id) in self.partition_tails:
+            # a copy of partition's third item: under `if <sep>` it is the text after the dot, under `if not <sep>` it is ''
+            dots = {f[1] for f in self.stmt_facts(st, extra) if f[0] == "dot"}
+            if dots == {True}:
+                self.tails.setdefault(name, set()).add("split")
+            elif dots == {False}:
+                self.tails.setdefault(name, set()).add(("const", ""))
+                self.partition_tails.add(name)
+            else:
+                self.aliases.append((name, self.prefix + val.id))
+                self.partition_tails.add(name)
         elif isinstance(val, ast.Name):
             self.aliases.append((name, self.prefix + val.id))
         else:
@@ -1455,6 +1475,65 @@ class _Forms:
             return None
         return got if pol else ("loop-unknown", f"not {unparse(call)}")
 
+    def _whole_form(self, e: ast.expr) -> str | None:
+        """``type`` / ``f"{type}.{subtype}"`` / ``f"{type}.*"`` (also with +): the three accepted entries, spelled out."""
+        def parts(x: ast.expr) -> list | None:
+            x = self.lit(x) if isinstance(x, ast.Name) and x.id not in (self.p_type, self.p_sub) else x
+            if isinstance(x, ast.Name):
+                return [("v", x.id)]
+            if isinstance(x, ast.Constant) and isinstance(x.value, str):
+                return [x.value]
+            if isinstance(x, ast.JoinedStr):
+                out: list = []
+                for v in x.values:
+                    if isinstance(v, ast.Constant):
+                        out.append(v.value)
+                    elif isinstance(v, ast.FormattedValue) and v.conversion in (-1, 115) and v.format_spec is None and isinstance(v.value, ast.Name):
+                        out.append(("v", v.value.id))
+                    else:
+                        return None
+                return out
+            if isinstance(x, ast.BinOp) and isinstance(x.op, ast.Add):
+                a, b = parts(x.left), parts(x.right)
+                return None if a is None or b is None else a + b
+            return None
+
+        p = parts(e)
+        if p is None:
+            return None
+        p = _merge_text(p)
+        T, S = ("v", self.p_type), ("v", self.p_sub)
+        return {(T,): "bare", (T, ".", S): "sub", (T, ".*"): "star"}.get(tuple(p))
+
+    def _whole(self, test: ast.expr) -> tuple[set[str], bool] | None:
+        """The whole entry compared with spelled-out forms -> (forms, negated)."""
+        if not (isinstance(test, ast.Compare) and len(test.ops) == 1):
+            return None
+        op, l, r = test.ops[0], test.left, test.comparators[0]
+        if isinstance(op, (ast.Eq, ast.NotEq)):
+            for x, y in ((l, r), (r, l)):
+                if _is_name(x, self.entry):
+                    f = self._whole_form(y)
+                    if f is not None:
+                        return {f}, isinstance(op, ast.NotEq)
+        if isinstance(op, (ast.In, ast.NotIn)) and _is_name(l, self.entry):
+            r = self.lit(r) if isinstance(r, ast.Name) else r
+            if isinstance(r, ast.Name) and r.id not in self.loopnames:  # a local bound once to the tuple of forms
+                f = self.fi
+                while f is not None and isinstance(r, ast.Name):
+                    stores = [n for n in f.local_nodes() if isinstance(n, ast.Name) and n.id == r.id and isinstance(n.ctx, ast.Store)] if not f.is_lambda else []
+                    if len(stores) == 1 and isinstance(parent(stores[0]), ast.Assign) and len(parent(stores[0]).targets) == 1:
+                        r = parent(stores[0]).value
+                        break
+                    if stores:
+                        break
+                    f = f.parent_func
+            if isinstance(r, (ast.Tuple, ast.List, ast.Set)) and r.elts:
+                forms = [self._whole_form(x) for x in r.elts]
+                if all(f is not None for f in forms):
+                    return set(forms), isinstance(op, ast.NotIn)  # type: ignore[arg-type]
+        return None
+
     def _loose(self, test: ast.expr) -> tuple[str, str, str] | None:
         """A prefix / suffix / substring comparison between a part of the entry and the warning's type or subtype:
         a near-synonym of equality that accepts more (or other) entries.  -> (kind, entry part name, description)"""
@@ -1493,13 +1572,21 @@ class _Forms:
         if isinstance(test, ast.Compare) and len(test.ops) == 1 and isinstance(test.ops[0], (ast.Eq, ast.NotEq)):
             l, r = test.left, test.comparators[0]
             for x, y in ((l, r), (r, l)):
-                if _is_name(x, self.p_type) and isinstance(y, ast.Name) and y.id in self.loopnames:
+                if _is_name(x, self.p_type) and isinstance(y, ast.Name) and y.id in self.loopnames and y.id != self.entry:
                     return ("type", px + y.id, pol == isinstance(test.ops[0], ast.Eq))
         if isinstance(test, ast.Compare) and len(test.ops) == 1 and isinstance(test.ops[0], (ast.In, ast.NotIn)):
             if is_const(self.lit(test.left), ".") and _is_name(test.comparators[0], self.entry):
                 return ("dot", pol == isinstance(test.ops[0], ast.In))
             if _is_name(test.left, self.p_type) and _is_name(test.comparators[0], self.p_list):
                 return ("bare-member", pol == isinstance(test.ops[0], ast.In))
+        if isinstance(test, ast.Name) and test.id in self.partition_seps:
+            return ("dot", pol)
+        if isinstance(test, ast.Compare) and len(test.ops) == 1 and isinstance(test.left, ast.Name) and test.left.id in self.partition_seps and isinstance(test.ops[0], (ast.Eq, ast.NotEq)) and isinstance(self.lit(test.comparators[0]), ast.Constant) and self.lit(test.comparators[0]).value in (".", ""):
+            return ("dot", (self.lit(test.comparators[0]).value == ".") == (pol == isinstance(test.ops[0], ast.Eq)))
+        whole = self._whole(test)
+        if whole is not None:
+            self.saw_whole = True
+            return ("whole", whole[0], pol != whole[1])
         loose = self._loose(test)
         if loose is not None:
             return (loose[0], px + loose[1], loose[2], pol)
@@ -1542,7 +1629,7 @@ def _f_unknown(f: tuple) -> bool:
 
 
 def _f_loopdep(f: tuple) -> bool:
-    return f[0] in ("type", "sub", "dot", "loop-unknown", "harmless-entry", "type-loose", "sub-loose") or (f[0] in ("or", "and") and any(_f_loopdep(x) for x in f[1]))
+    return f[0] in ("type", "sub", "dot", "whole", "loop-unknown", "harmless-entry", "type-loose", "sub-loose") or (f[0] in ("or", "and") and any(_f_loopdep(x) for x in f[1]))
 
 
 def _f_implies(f: tuple, kind: str) -> bool:
@@ -1574,12 +1661,15 @@ def _check_forms(isw: FunctionInfo, rep: Report, dotfree: bool, resolver=None) -
 
     # the scan of the suppress list: a for loop, or `return any(<match> for <entry> in <suppress list>)`
     loops = [n for n in isw.local_nodes() if isinstance(n, ast.For) and p_list in _names(n.iter)]
-    gens = [
-        n
-        for n in isw.local_nodes()
-        if isinstance(n, ast.Return) and isinstance(n.value, ast.Call) and dotted(n.value.func) == "any" and len(n.value.args) == 1 and not n.value.keywords
-        and isinstance(n.value.args[0], (ast.GeneratorExp, ast.ListComp)) and len(n.value.args[0].generators) == 1 and p_list in _names(n.value.args[0].generators[0].iter)
-    ]
+    def is_scan_call(v: ast.expr | None) -> bool:
+        if not (isinstance(v, ast.Call) and not v.keywords and v.args and isinstance(v.args[0], (ast.GeneratorExp, ast.ListComp)) and len(v.args[0].generators) == 1 and p_list in _names(v.args[0].generators[0].iter)):
+            return False
+        if dotted(v.func) == "any" and len(v.args) == 1:
+            return True
+        # next((True for e in L if <match>), False): the first match answers True, exhaustion answers False
+        return dotted(v.func) == "next" and len(v.args) == 2 and isinstance(v.args[0], ast.GeneratorExp) and is_const(v.args[0].elt, True) and is_const(v.args[1], False) and bool(v.args[0].generators[0].ifs)
+
+    gens = [n for n in isw.local_nodes() if isinstance(n, ast.Return) and is_scan_call(n.value)]
     loop: ast.For | None = None
     gen_ret: ast.Return | None = None
     if len(loops) == 1 and not gens and isinstance(loops[0].target, ast.Name):
@@ -1613,11 +1703,11 @@ def _check_forms(isw: FunctionInfo, rep: Report, dotfree: bool, resolver=None) -
     gen_facts: list[tuple] = []
     if gen_ret is not None:
         g0 = gen_ret.value.args[0]  # type: ignore[union-attr]
-        gen_facts = ret_facts[id(gen_ret)] + fm.stmt_facts(gen_ret, [(g0.elt, True)] + [(c, True) for c in g0.generators[0].ifs])
+        gen_facts = ret_facts[id(gen_ret)] + fm.stmt_facts(gen_ret, ([] if is_const(g0.elt, True) else [(g0.elt, True)]) + [(c, True) for c in g0.generators[0].ifs])
     fm.finish()
 
     # the split: on the first dot only, and only when there is a dot
-    if not fm.split_calls and not fm.partition_calls:
+    if not fm.split_calls and not fm.partition_calls and not fm.saw_whole:
         unsup.append("no `<entry>.split('.', 1)` / `<entry>.partition('.')` found (entry decomposed in an unknown idiom)")
     for c, cfi in fm.partition_calls:
         if not is_const(_lit(c.args[0], cfi), "."):
@@ -1669,14 +1759,37 @@ def _check_forms(isw: FunctionInfo, rep: Report, dotfree: bool, resolver=None) -
     judged: list[ast.Return] = []
 
     def judge_positive(r: ast.Return, fs: list[tuple], scanning: bool) -> None:
-        """A positive answer under the facts ``fs``: which of the three forms does it accept, and nothing else?"""
+        """A positive answer under the facts ``fs``; a disjunctive condition is a case split: every alternative is judged."""
         unknown_f = [f for f in fs if _f_unknown(f)]
         if unknown_f:
             unsup.append(f"positive answer under condition(s) not understood: {'; '.join(_f_text(f) for f in unknown_f)[:120]}")
             return
+        alts: list[list[tuple]] = [[]]
+        for f in fs:
+            if f[0] == "or":
+                alts = [a + _flat([x]) for a in alts for x in f[1]]
+            else:
+                alts = [a + [f] for a in alts]
+            if len(alts) > 16:
+                unsup.append("positive answer under too many alternative conditions (not understood)")
+                return
+        if any(x[0] == "or" for a in alts for x in a):
+            unsup.append("positive answer under nested alternative conditions (not understood)")
+            return
+        for a in alts:
+            judge_alternative(r, a, scanning)
+
+    def judge_alternative(r: ast.Return, fs: list[tuple], scanning: bool) -> None:
+        """One conjunction of facts under which the answer is positive: which of the three forms does it accept?"""
         if not scanning:
             if any(_f_implies(f, "bare-member") for f in fs):
                 return  # `if type in suppress_list: return True` - the bare type form, decided early
+        wholes = [f for f in fs if f[0] == "whole" and f[2]]
+        if wholes:
+            # `entry == type`, `entry == f"{type}.{subtype}"`, `entry in (type, f"{type}.*", ...)`: forms spelled out
+            covered.update(set.intersection(*[set(f[1]) for f in wholes]))
+            judged.append(r)
+            return
         dots = {f[1] for f in fs if f[0] == "dot"}
         if len(dots) == 2:
             return  # contradictory: dead code
@@ -2596,6 +2709,8 @@ def mutants(corpus: Corpus):
         ifs = parent(dot)
         a_, b_ = (unparse(x) for x in ifs.body[0].targets[0].elts)
         out.append(Mutant("c14-partition-bare-sentinel-lost", "C14.R4", w.rel, splice(w.src, ifs, f"{a_}, _, {b_} = {unparse(dot.comparators[0])}.partition('.')"), expect="bare type"))
+        i_ = ind_of(w, ifs)
+        out.append(Mutant("c14-partition-sentinel-empty-string", "C14.R4", w.rel, splice(w.src, ifs, f"{a_}, sep_, rest_ = {unparse(dot.comparators[0])}.partition('.')\n{i_}{b_} = rest_ if sep_ else ''"), expect="bare type"))
     else:
         out.append(("c14-partition-bare-sentinel-lost", "the entry is no longer decomposed by `if '.' in entry: a, b = entry.split(...)`"))
     loop = find_node(f, lambda n: isinstance(n, ast.For) and p_list is not None and unparse(n.iter) == p_list)
